@@ -341,5 +341,21 @@ def run(case, rec):
             rec.ratio(float((err / tol).ravel()[k]))
             rec.check(bool(np.all(err <= tol)), "Trend(%d) fitted to u^%d v^%d on %s does not reproduce it at (%r, %r): %r vs %r (cond %.3g)"
                       % (deg, i, j, pts, qu.ravel()[k], qv.ravel()[k], np.asarray(pred).ravel()[k], want.ravel()[k], ref["cond"]))
+            # query sets with structure: a profile along each axis through the frame's origin (one coordinate constant - exactly zero
+            # in the unshifted frames), a single point, two points (seed C01-13: coordinates normalised by the query set's own maximum)
+            lines = [(np.zeros(5) * sc + oe, np.array([-1.0, 0.0, 0.5, 2.0, 3.0]) * sc + on, np.zeros(5), np.array([-1.0, 0.0, 0.5, 2.0, 3.0])),
+                     (np.array([-2.0, 0.0, 1.0, 1.5, 4.0]) * sc + oe, np.zeros(5) * sc + on, np.array([-2.0, 0.0, 1.0, 1.5, 4.0]), np.zeros(5)),
+                     (np.array([0.0]) * sc + oe, np.array([0.0]) * sc + on, np.array([0.0]), np.array([0.0])),
+                     (np.array([1.0, 1.0]) * sc + oe, np.array([2.0, 2.0]) * sc + on, np.array([1.0, 1.0]), np.array([2.0, 2.0]))]
+            for le, ln, lu, lv in lines:
+                pl = call(rec, est.predict, (le, ln))
+                if raised(pl):
+                    rec.check(False, "Trend.predict on a structured query set raised %r" % (pl,))
+                    continue
+                wl = lu ** i * lv ** j
+                al = np.sum(np.abs(R.trend_design(le, ln, deg) / ref["scale"]), axis=1)
+                tl = np.maximum(256 * ref["cond"] * R.EPS * max(float(np.linalg.norm(ps)), 1e-300) * al, 64 * R.EPS * np.abs(wl))
+                rec.check(bool(np.all(np.abs(np.asarray(pl) - wl) <= tl)), "Trend(%d) fitted to u^%d v^%d: prediction %r on the query set (u=%r, v=%r), expected %r"
+                          % (deg, i, j, np.asarray(pl).tolist(), lu.tolist(), lv.tolist(), wl.tolist()))
         return
     raise ValueError(kind)
